@@ -72,6 +72,11 @@ def lib_case(draw):
             sp['Cps'][draw(st.integers(0, len(sp['Cps']) - 1))] = 0.0
         if z == 3 and sp['H'] is not None:
             sp['H'] = sp['H'] * draw(st.sampled_from([1e-6, 1e4]))
+        # the reference temperature that is the documented default (298.15 K), where the data allow it: such a group may leave
+        # T_ref out of its file entry
+        eff = TG.effective_range(sp)
+        if draw(st.integers(0, 2)) == 0 and (eff is None or eff[0] <= 298.15 <= eff[1]) and (sp['range'] or not sp['Ts'] or sp['Ts'][0] <= 298.15 <= sp['Ts'][-1]):
+            sp['T_ref'] = 298.15
         specs.append(sp)
     block = {'molar enthalpy': draw(st.sampled_from(LG.ENERGY_UNITS)),
              'molar entropy': draw(st.sampled_from(LG.ENTROPY_UNITS)),
@@ -106,6 +111,11 @@ def presentations(case):
     out['P3-mixture'] = (blk, [dict((k, tuple(v)) for k, v in m.items()) for m in case['mix']])
     # the same numbers written with an integer mantissa and a power of ten (5e-1 for 0.5): read by the unit grammar where a unit
     # follows or a default applies, by the plain-number reader for the non-dimensional keys
+    # groups whose reference temperature is the default one leave it out (whatever the file's default temperature unit is)
+    if any(sp['T_ref'] == 298.15 for sp in specs):
+        out['P1o-default-units-T_ref-left-out'] = (blk, [dict(p, omit_T_ref=(sp['T_ref'] == 298.15 and (sp['H'] is not None or sp['S'] is not None or bool(sp['Ts']) or bool(sp['range'])))) for p, sp in zip(out['P1-default-units'][1], specs)])
+        out['P2o-explicit-units-T_ref-left-out'] = (None, [dict(p, omit_T_ref=(sp['T_ref'] == 298.15 and (sp['H'] is not None or sp['S'] is not None or bool(sp['Ts']) or bool(sp['range'])))) for p, sp in zip(out['P2-explicit-units'][1], specs)])
+        out['P0o-nondimensional-T_ref-left-out'] = (None, [dict(p, omit_T_ref=(sp['T_ref'] == 298.15 and (sp['H'] is not None or sp['S'] is not None or bool(sp['Ts']) or bool(sp['range'])))) for p, sp in zip(out['P0-nondimensional'][1], specs)])
     out['P2e-explicit-units-exponent-notation'] = (None, [dict(p, num='exponent') for p in out['P2-explicit-units'][1]])
     out['P1e-default-units-exponent-notation'] = (blk, [dict(p, num='exponent') for p in out['P1-default-units'][1]])
     out['P0e-nondimensional-exponent-notation'] = (None, [dict(p, num='exponent') for p in out['P0-nondimensional'][1]])
